@@ -24,7 +24,7 @@ CLAIMED.update({
    "Trusted: symgo + protobuf model over generated structs (validated by native replay), IEEE identities |x-y|=|y-x| and commutativity of math.Min/Max used for canonicalisation, durationpb/timestamppb ghost nanoseconds; instants within +-2^62 ns. Unknown fields outside the claim.",
    "SSA symbolic execution + SMT (FP and BV theories), native replay"),
  "C17": ("DESIGN.md 5/C17",
-   "group.Execute for every strategy x 0..3 (thorough 4) members x symbolic success flags x every completion order (scheduler choices explored exhaustively with sleep-set reduction; 4 members exceed 1.5M paths and are outside the claim): thresholds, result placement, error identity, no panic, no leaked goroutine; the light and on-off group servers' Get/Update with independently chosen read and write strategies (All/Most/Any), 2 (3) members with symbolic failures behind a fake client, and a member that only returns on cancellation (the group call must return).",
+   "group.Execute for every strategy x 0..3 (thorough 4) members x symbolic success flags x every completion order (scheduler choices explored exhaustively with sleep-set reduction; 4 members exceed 1.5M paths and are outside the claim): thresholds, result placement, error identity, no panic, no leaked goroutine; the light and on-off group servers' Get/Update with independently chosen read and write strategies (All/Most/Any), 2 (3) members with symbolic failures behind a fake client, and a member that only returns on cancellation (the group call must return); with Most/Any one failure of two cancels nobody and the later success counts.",
    "Trusted: symgo concurrency runtime (goroutines, channels, WaitGroup, context), z3; race monitor on. Pull through the group servers outside.",
    "SSA symbolic execution with symbolic scheduler + SMT, native replay"),
 })
@@ -53,12 +53,12 @@ CLAIMED.update({
 
 CLAIMED.update({
  "C01": ("DESIGN.md 5/C01",
-   "One arbitrary Set on an arbitrary Value and one arbitrary Get/Add/Update/Delete on an arbitrary Collection (0..2 items, symbolic ids and bodies) with option subsets (update mask x {reset, expected value, expected check ok/fail, before/after interceptor, write time}; create-if-absent, expect-absent, allow-missing, generated ids) against an in-harness reference; failed calls change nothing; List sorted; generated ids non-empty/unused/reported once/usable; the same step under an arbitrary two-entry id interceptor (not assumed idempotent) behaves as the plain map at key I(id); generated ids under a canonicalising interceptor are usable; List under include x read mask equals filter-then-project of the reference; a write under a nested update mask clears/sets exactly the named leaf. A single step from an arbitrary state gives sequences by induction.",
+   "One arbitrary Set on an arbitrary Value and one arbitrary Get/Add/Update/Delete on an arbitrary Collection (0..2 items, symbolic ids and bodies) with option subsets (update mask x {reset, expected value, expected check ok/fail, before/after interceptor, write time}; create-if-absent, expect-absent, allow-missing, generated ids) against an in-harness reference; failed calls change nothing; List sorted; generated ids non-empty/unused/reported once/usable; the same step under an arbitrary two-entry id interceptor (not assumed idempotent) behaves as the plain map at key I(id); generated ids under a canonicalising interceptor are usable; List under include x read mask equals filter-then-project of the reference; a write under a nested update mask clears/sets exactly the named leaf; a reset mask naming an unknown field is refused and changes nothing. A single step from an arbitrary state gives sequences by induction.",
    "Trusted: symgo + protobuf model + real masks/fmutils code, z3, ordinal ids, arbitrary rng bytes and clock. Bound quick: option subsets of size <=2 plus all six, 5 update masks, bodies with 2 implicit scalars + 1 optional; thorough: all 64 subsets, 3 items.",
    "SSA symbolic execution + SMT vs reference model, native replay"),
  "C04": ("DESIGN.md 5/C04",
    "Real Pull goroutines (bus, listener, forwarder) executed in the symbolic concurrency runtime with a consuming goroutine and one writer under every interleaving: seeds first/sorted/flagged/last-seed, exactly one event per successful write in write order with id, kind, old and new value and write time; none for failed writes; updates-only has no seed; no goroutine outlives the cancelled subscription.",
-   "Trusted: symgo concurrency runtime with sleep-set reduction (DRF between sync ops), protobuf model, z3. Bound: Value 2 writes, Collection 0..2 seed items + 1 write (with and without read mask); equivalence suppression (exact / tolerance / none, with read mask, 2-3 writes); a subscriber registering behind a cancelled, uncollected one during a publication gets every later write exactly once; the seed of a later subscription carries the stored change time (WithWriteTime); event time for writes without WithWriteTime not asserted.",
+   "Trusted: symgo concurrency runtime with sleep-set reduction (DRF between sync ops), protobuf model, z3. Bound: Value 2 writes, Collection 0..2 seed items + 1 write (with and without read mask); equivalence suppression (exact / tolerance / none, with read mask, 2-3 writes); a subscriber registering behind a cancelled, uncollected one during a publication gets every later write exactly once; the seed of a later subscription carries the stored change time (WithWriteTime); two subscribers with different read masks each get their own projection; event time for writes without WithWriteTime not asserted.",
    "SSA symbolic execution with symbolic scheduler + SMT, native replay"),
 })
 
